@@ -1,4 +1,3 @@
-(* WIP *)
 (* The pre-fix write loop (pinned commit f01d2fe, clients.go WriteLoop: a WritePacket error was only
    logged) — kept only to document the repaired defects C34-1 and C34-2. *)
 From MV Require Import Base.Val Session.Pkt IO.WriteBuf.
